@@ -157,6 +157,27 @@ fn run_case(case: &J) -> J {
     };
     o["parse"] = json!("ok");
     o["out"] = json!(p1.out);
+    // `aiken fmt FILE`: the file is overwritten in place
+    if let Some(dir) = case["inplace_dir"].as_str() {
+        let path = std::path::Path::new(dir).join(format!("m{}.ak", std::process::id()));
+        let _ = std::fs::create_dir_all(dir);
+        if std::fs::write(&path, &src).is_ok() {
+            let p = path.to_string_lossy().to_string();
+            let r = guarded(move || aiken_project::format::run(false, false, vec![p]).map_err(|es| format!("{} errors", es.len())));
+            match r {
+                Err(pn) => o["inplace_panic"] = json!(pn),
+                Ok(Err(e)) => o["inplace_err"] = json!(e),
+                Ok(Ok(())) => {
+                    let on_disk = std::fs::read_to_string(&path).unwrap_or_else(|e| format!("<unreadable: {e}>"));
+                    o["inplace_same"] = json!(on_disk == p1.out);
+                    if on_disk != p1.out {
+                        o["inplace_out"] = json!(on_disk.chars().take(4000).collect::<String>());
+                    }
+                }
+            }
+            let _ = std::fs::remove_file(&path);
+        }
+    }
     if want_tree {
         o["tree"] = p1.tree.clone();
     }
